@@ -93,6 +93,10 @@ def keyed_memo_decorators(repo):
                         for t in a.targets:
                             if isinstance(t, ast.Subscript) and isinstance(t.slice, ast.Name):
                                 keys.add(t.slice.id)
+                            elif isinstance(t, ast.Subscript) and isinstance(t.slice, ast.IfExp):
+                                # memo[k1 if <cond> else k2] = value: keyed by either (which one is used when is decided by the
+                                # interpreted loop model, C04-R1)
+                                keys.update(n.id for n in (t.slice.body, t.slice.orelse) if isinstance(n, ast.Name))
                 attrs = set()
                 for a in ast.walk(getter):
                     if isinstance(a, ast.Assign) and any(isinstance(t, ast.Name) and t.id in keys for t in a.targets):
@@ -128,7 +132,9 @@ def provisional_sources(repo):
             continue
         body = fi.node.body
         for i, st in enumerate(body):
-            if not (isinstance(st, ast.If) and st.body and isinstance(st.body[0], ast.Return)):
+            # `if <marker>: [bookkeeping;] return <sentinel>`
+            if not (isinstance(st, ast.If) and st.body and isinstance(st.body[-1], ast.Return)
+                    and all(isinstance(x, (ast.Expr, ast.Assign, ast.AugAssign)) for x in st.body[:-1])):
                 continue
             marks = [n.attr for n in ast.walk(st.test) if isinstance(n, ast.Attribute)
                      and isinstance(n.value, ast.Name) and n.value.id == 'self']
@@ -169,7 +175,7 @@ def provisional_sources(repo):
                     bypass = [c for c in ast.walk(fi.node) if isinstance(c, ast.Call) and st.lineno < c.lineno < first_set
                               and not any(c is y for y in ast.walk(st.test))
                               and unparse(c.func) not in ('isinstance', 'type', 'len', 'hasattr', 'getattr', 'frozenset', 'tuple', 'list', 'set', 'id')]
-                    out.append({'fi': fi, 'marker': mk, 'sentinel': unparse(st.body[0].value) if st.body[0].value else 'None',
+                    out.append({'fi': fi, 'marker': mk, 'sentinel': unparse(st.body[-1].value) if st.body[-1].value else 'None',
                                 'reset_safe': safe, 'resets': resets, 'sets': sets, 'bypass': bypass})
     return out
 
